@@ -136,8 +136,13 @@ func (d c14Doc) yaml() string {
 		sb.WriteString(c14SecondService)
 	}
 	svc := "my service"
-	if d.Malform == "empty-service" {
+	switch d.Malform {
+	case "empty-service":
 		svc = "''"
+	case "blank-service":
+		svc = "'   '"
+	case "tab-service":
+		svc = `"\t"`
 	}
 	sb.WriteString("- service: " + svc + "\n")
 	block := func(name, tag string, mask int, withRoute bool) {
@@ -531,9 +536,62 @@ func c14Run(c *fw.Ctx) {
 			}
 		}
 	})
+	// sweep 1e: an upstream whose only allow rule is a list of blank entries (an empty template variable, a
+	// stray separator): refused, or loaded with a rule that admits nobody — never loaded without any rule
+	blankLists := []string{"['']", "[' ']", "['', '  ']", "['{{blank}}']", "['{{blank}} ']"}
+	drive(c, "blank-allow-entries", -1, func(x *explore.Exec, owned bool) {
+		opt := []string{"allowed_groups", "allowed_email_domains", "allowed_email_addresses"}[x.Choose("option", 3)]
+		bl := blankLists[x.Choose("entries", len(blankLists))]
+		where := []string{"upstream", "extra-route", "deployment-default"}[x.Choose("stated-by", 3)]
+		if !owned {
+			return
+		}
+		os.Setenv("SSO_CONFIG_BLANK", "")
+		defer os.Unsetenv("SSO_CONFIG_BLANK")
+		doc := "- service: blanks\n  default:\n    from: blanks.{{cluster}}.sso.test\n    to: blanks-backend.{{root}}:8080\n"
+		switch where {
+		case "upstream":
+			doc += "    options:\n      " + opt + ": " + bl + "\n"
+		case "extra-route":
+			doc += "    options:\n      " + opt + ": " + bl + "\n    extra_routes:\n      - from: blanks-extra.{{cluster}}.sso.test\n        to: blanks-backend.{{root}}:9090\n"
+		}
+		if err := os.WriteFile(file, []byte(doc), 0o644); err != nil {
+			panic(err)
+		}
+		uc := &proxy.UpstreamConfigs{ConfigsFile: file, Cluster: "prod", Scheme: "https"}
+		uc.DefaultConfig.Timeout = 10 * time.Second
+		uc.DefaultConfig.ProviderSlug = "idp"
+		if where == "deployment-default" {
+			// what UPSTREAM_DEFAULT_* holding only separators and blanks decodes to
+			switch opt {
+			case "allowed_groups":
+				uc.DefaultConfig.AllowedGroups = []string{" ", ""}
+			case "allowed_email_domains":
+				uc.DefaultConfig.EmailConfig.AllowedDomains = []string{" ", ""}
+			case "allowed_email_addresses":
+				uc.DefaultConfig.EmailConfig.AllowedAddresses = []string{" ", ""}
+			}
+		}
+		err := proxy.SetUpstreamConfigs(uc, proxy.CookieConfig{Name: "_sso_proxy"}, &proxy.ServerConfig{})
+		ups := proxy.VerifUpstreamConfigs(uc)
+		c.Res.Outcome(fmt.Sprintf("blank-allow-entries|%s|%s|%s|err=%v|n=%d", opt, bl, where, err != nil, len(ups)))
+		if err != nil {
+			c.Res.Count("rejected_documents", 1)
+			return
+		}
+		for _, u := range ups {
+			if len(u.AllowedGroups)+len(u.AllowedEmailDomains)+len(u.AllowedEmailAddresses) == 0 {
+				c.Res.Violate(fw.Violation{Property: "C14", Key: "C14/open-to-everyone/blank-allow-entries/" + where, Scenario: "blank-allow-entries", Choices: x.Choices(),
+					What:   fmt.Sprintf("upstream %s (%s) was loaded without any allow rule: its only rule, %s: %s, vanished", u.Service, u.RouteConfig.From, opt, bl),
+					Detail: map[string]interface{}{"document": doc, "stated_by": where}})
+			} else {
+				c.Res.Count("positive_blank_rule_kept_as_a_rule_that_admits_nobody", 1)
+			}
+		}
+	})
 	// sweep 2: fail-closed
 	types := []string{"", "simple", "rewrite", "bogus"}
-	malforms := []string{"none", "bad-regex", "missing-from", "missing-to", "empty-service", "bad-rewrite-regexp"}
+	malforms := []string{"none", "bad-regex", "missing-from", "missing-to", "empty-service", "bad-rewrite-regexp", "blank-service", "tab-service"}
 	shapes := [][2]int{{0, 0}, {1, 0}, {8, 0}, {0, 16}, {1 | 8, 16}, {2, 1}}
 	drive(c, "fail-closed", -1, func(x *explore.Exec, owned bool) {
 		d := c14Doc{Blocks: "both"}
@@ -557,6 +615,7 @@ func init() {
 		Rule: "every document of a grammar, loaded through proxy.SetUpstreamConfigs for cluster `prod` with template variables in from/to/options: (merge) blocks {default only, cluster only, both} x options stated by the default block (all 64 subsets of groups, domains, addresses, skip_auth_regex, timeout, header_overrides) x options stated by the cluster block (64 subsets) x extra route {none, bare, stating groups / skip list / timeout (thorough: each of the six options)} x deployment defaults {none, domain, group}; " +
 			"(two-services) a second service of the same cluster that states no options, before or after the first, must resolve to the deployment defaults only; (fail-closed) route type {omitted, simple, rewrite, unknown} x malformation {none, bad skip regex, missing from, missing to, empty service, unbalanced rewrite regexp} x defaults x option shapes x extra route x a second service configured for another cluster only. " +
 			"(merge-with-provider-slug) the same merge with a provider_slug stated by {default, cluster, extra route, default+cluster, default+extra, cluster+extra} blocks x 8 subsets of {groups, domains, skip list} per block: the slug resolves block over block, and stating one never changes which rules are inherited; (template-values) adds a variable exported with an EMPTY value, referenced inside a group name and a header value; " +
+			"(blank-allow-entries) an upstream whose only rule is a list of blank entries (empty string, blanks, an empty template variable), stated by the upstream, inherited by an extra route, or coming from the deployment default: refused or kept as a rule that admits nobody; (fail-closed) also service names that are blank or a tab; " +
 			"Oracle: an error is always acceptable; otherwise every upstream has its service name, a resolved route, substituted templates, as many compiled skip patterns as listed, at least one allow rule, and every option equals the field-by-field reference merge (cluster block over default block over deployment default; extra route over its parent); " +
 			"distinct_nontrivial = distinct (blocks, subsets, extra, type, defaults, malformation, accepted?) documents",
 		Assumptions:    []string{"one or two services per document (plus an optional service configured for another cluster only); option values are distinguishable per block"},
